@@ -51,9 +51,14 @@ func attrYAML(as []UAttr) string {
 func chordYAML(cs []UChord) string {
 	var sb strings.Builder
 	for _, c := range cs {
-		sb.WriteString("- meta: {display: " + yq(c.Display) + "}\n")
-		if c.Name != "" {
-			sb.WriteString("  name: " + yq(c.Name) + "\n")
+		if c.Display == "" && c.Name != "" && c.Name != "MajorTriad" {
+			// the display symbol was forgotten altogether
+			sb.WriteString("- name: " + yq(c.Name) + "\n")
+		} else {
+			sb.WriteString("- meta: {display: " + yq(c.Display) + "}\n")
+			if c.Name != "" {
+				sb.WriteString("  name: " + yq(c.Name) + "\n")
+			}
 		}
 		if len(c.Attrs) > 0 {
 			sb.WriteString("  attributes: [")
@@ -440,7 +445,7 @@ func dumpFiles(files map[string]string) string {
 
 func init() { reg("c16", checkC16) }
 
-var badDictKinds = []string{"dangling-attribute", "dangling-extends", "cycle-1", "cycle-2", "cycle-3", "lasso-1", "lasso-2", "lasso-display", "cycle-via-display", "extends-names-an-attribute", "attribute-names-a-chord", "attribute-names-a-display", "dangling-extends-name-is-display", "dangling-attribute-name-is-display", "cycle-name-is-display", "unnamed-chord", "unnamed-attribute"}
+var badDictKinds = []string{"dangling-attribute", "dangling-extends", "cycle-1", "cycle-2", "cycle-3", "lasso-1", "lasso-2", "lasso-display", "cycle-via-display", "extends-names-an-attribute", "attribute-names-a-chord", "attribute-names-a-display", "dangling-extends-name-is-display", "dangling-attribute-name-is-display", "cycle-name-is-display", "unnamed-chord", "unnamed-attribute", "chord-without-display", "alias-without-display"}
 
 // badDictExtra returns the entries that make a dictionary inconsistent in the given way.
 func badDictExtra(bad string) ([]UChord, []UAttr) {
@@ -477,6 +482,10 @@ func badDictExtra(bad string) ([]UChord, []UAttr) {
 		return []UChord{{Name: "cyx", Display: "cyx", Attrs: []string{"Perfect1"}, Extends: "cyy"}, {Name: "cyy", Display: "cyy", Extends: "cyx"}}, nil
 	case "unnamed-chord":
 		return []UChord{{Name: "", Display: "noname", Attrs: []string{"Perfect1"}}}, nil
+	case "chord-without-display": // named, but without the symbol it would be written with: it must not take over the empty symbol (the major triad)
+		return []UChord{{Name: "NoDisplay", Display: "", Attrs: []string{"Perfect1", "Major2", "Perfect5"}}}, nil
+	case "alias-without-display":
+		return []UChord{{Name: "NoDisplayAlias", Display: "", Extends: "DominantSeventh"}}, nil
 	case "unnamed-attribute":
 		return nil, []UAttr{{Name: "", IV: IV{3, int(theory.Major)}}}
 	}
